@@ -217,7 +217,8 @@ def agg_shard(arg):
 def agg_longlived(arg):
   """One long-lived aggregated router while the rules file is rewritten, removed and restored (the
   RuleManager's periodic read_rules() tick is called by hand): routing must follow the rules in force."""
-  sequence, cls, maxlen = arg
+  sequence, cls, maxlen = arg[:3]
+  epoch = arg[3] if len(arg) > 3 else 2100000000.0
   env.boot()
   from carbon.routers import DatapointRouter
   from carbon.aggregator.rules import RuleManager
@@ -225,7 +226,7 @@ def agg_longlived(arg):
   from twisted.internet.task import Clock
   path = os.path.join(env.scratch(), 'aggregation-rules-ll-%d.conf' % os.getpid())
   names = [''.join(t) for k in range(1, maxlen + 1) for t in itertools.product(AGG_ALPHABET, repeat=k)]
-  tick = [2100000000.0]
+  tick = [epoch]       # file times long before and long after the wall clock: only their ORDER may matter
 
   def write(rules):
     if rules is None:
@@ -270,7 +271,7 @@ def agg_longlived(arg):
         if len(bad) < 3:
           bad.append(('aggregated-routing:after-rules-change', '%s (long-lived router, step %d of %r): metric %r routed to %r; the rules in '
                       'force map it to aggregates %r whose hash destinations are %r' % (cls, step, sequence, name, sorted(got), aggs, sorted(want)),
-                      {'sequence': sequence, 'metric': name, 'cls': cls, 'step': step}))
+                      {'sequence': sequence, 'metric': name, 'cls': cls, 'step': step, 'epoch': epoch}))
       elif aggs or step:
         okc += 1
   if RuleManager.read_task.running:
@@ -314,7 +315,8 @@ def run(ctx):
         seqs.append([[a], None, [a, b], [b]])
   if not ctx.thorough:
     seqs = seqs[::4]
-  lres = core.pmap(agg_longlived, [(sq, cls, 4) for sq in seqs for cls in ('aggregated-consistent-hashing', 'fast-aggregated-hashing')], chunksize=2)
+  lres = core.pmap(agg_longlived, [(sq, cls, 4, ep) for sq in seqs for cls in ('aggregated-consistent-hashing', 'fast-aggregated-hashing')
+                                     for ep in (1000000000.0, 2100000000.0)], chunksize=2)
   for cnt, okc, bad in lres:
     n2 += cnt
     d2 += okc
@@ -337,7 +339,7 @@ def replay(path):
   rep = body['replay']
   if 'sequence' in rep:
     seq = [None if r is None else [tuple(x) for x in r] for r in rep['sequence']]
-    n, ok, bad = agg_longlived((seq, rep['cls'], 4))
+    n, ok, bad = agg_longlived((seq, rep['cls'], 4, rep.get('epoch', 2100000000.0)))
   elif 'sections' in rep:
     n, ok, bad = relay_shard(([rep['sections']], [tuple(rep['configured'])]))
   else:
